@@ -99,6 +99,30 @@ def expression_nestings():
     return out
 
 
+def scope_kind_programs():
+    """an outer `let` / `const` x, a nested scope (block, if body, switch clause) declaring its own x with either keyword, and an assignment to x inside the nested
+    scope or after it: the keyword that counts is the one of the declaration in force.  -> [(program, tag, accepted?)]"""
+    out = []
+    asg = lambda n: ("expr", ("assign", ("ident", "x"), ("int", n)))
+    for k1 in ("let", "const"):
+        for k2 in ("let", "const", None):
+            for nest in ("block", "if", "switch", "if-else"):
+                for where in ("inside", "after"):
+                    inner = ([("decl", k2, [("x", None, ("int", 2))])] if k2 else []) + ([asg(3)] if where == "inside" else [])
+                    if nest == "block":
+                        st = [("block", inner)]
+                    elif nest == "if":
+                        st = [("if", DYN["bool"], ("block", inner), None)]
+                    elif nest == "if-else":
+                        st = [("if", DYN["bool"], ("block", []), ("block", inner))]
+                    else:
+                        st = [("switch", DYN["int"], [(("int", 1), inner + [("break", False)])], None)]
+                    body = [("decl", k1, [("x", None, ("int", 1))])] + st + ([asg(4)] if where == "after" else []) + [("expr", ("call", ("member", ("ident", "a"), "act"), [("ident", "x")]))]
+                    in_force = (k2 or k1) if where == "inside" else k1
+                    out.append((("binding_block", body), "scope-kind:%s:%s:%s:%s" % (k1, k2, nest, where), in_force == "let"))
+    return out
+
+
 def skeleton_statements(maxn):
     """all switch skeletons with <= maxn clauses x default position x small bodies; if/else and early-return shapes"""
     bodies = [[], [("expr", ("call", ("member", ("ident", "a"), "act"), [("int", 1)]))], [("break", False)],
